@@ -52,6 +52,7 @@ type Analysis struct {
 	undec   []string
 	quiet   int
 	nframes int
+	widened int // number of times a path state was widened (compress over dnfCap)
 	// global facts about symbols (reader contracts etc.)
 	global Conj
 	// hooks
@@ -594,6 +595,7 @@ func (f *Frame) compress(d DNF) DNF {
 		out = append(out, c)
 	}
 	if len(out) > dnfCap {
+		f.an.widened++
 		// group disjuncts by their boolean-flag atoms (nil-ness of results, ok flags) and keep,
 		// per group, only the atoms common to the whole group: correlations between flags
 		// survive, numeric detail is widened
@@ -1397,7 +1399,7 @@ func (f *Frame) store(x *ssa.Store) {
 		p.obj.stores = map[string][]storeRec{}
 	}
 	f.an.seq++
-	p.obj.stores[p.path] = append(p.obj.stores[p.path], storeRec{val: v, instr: x, state: f.cur, seq: f.an.seq, frame: f})
+	p.obj.stores[p.path] = append(p.obj.stores[p.path], storeRec{val: v, instr: x, state: f.cur, seq: f.an.seq, frame: f, approx: f.an.widened > 0})
 	if p.obj.symbolic {
 		// ghost fact "this path passed a store of a non-nil value to the field" (used by the
 		// optional-callback rule); any other store to the field forgets it
@@ -1492,7 +1494,7 @@ func (f *Frame) loadPath(o *Obj, path string, t types.Type, at ssa.Instruction) 
 				return last.val
 			}
 		}
-		if f.storeCount(o, path) == 1 && f.dominates(recs[0].instr, at) && !f.hasSubStores(o, path) && !f.hasPrefixStores(o, path) {
+		if f.storeCount(o, path) == 1 && f.dominatesRec(o, recs[0], at) && !f.hasSubStores(o, path) && !f.hasPrefixStores(o, path) {
 			return recs[0].val
 		}
 		if v, ok := f.orderedLoad(o, path, at); ok {
@@ -1509,7 +1511,7 @@ func (f *Frame) loadPath(o *Obj, path string, t types.Type, at ssa.Instruction) 
 		fieldIdx := pre[i+1:]
 		pre = pre[:i]
 		if recs := o.stores[pre]; len(recs) > 0 {
-			if f.storeCount(o, pre) == 1 && f.dominates(recs[0].instr, at) && !f.hasSubStores(o, pre) {
+			if f.storeCount(o, pre) == 1 && f.dominatesRec(o, recs[0], at) && !f.hasSubStores(o, pre) {
 				// project remaining path
 				v := recs[0].val
 				rest := path[len(pre):]
@@ -1646,6 +1648,15 @@ func (f *Frame) hasPrefixStores(o *Obj, path string) bool {
 	return false
 }
 
+// dominatesRec: the single recorded store governs a load at `at`: in the same function by
+// dominance; across inlined frames by the structural executed-before relation.
+func (f *Frame) dominatesRec(o *Obj, rc storeRec, at ssa.Instruction) bool {
+	if at == nil || rc.instr == nil || rc.instr.Parent() == at.Parent() {
+		return f.dominates(rc.instr, at)
+	}
+	return f.executedBefore(o, rc, at)
+}
+
 func (f *Frame) dominates(a, b ssa.Instruction) bool {
 	if a.Parent() != b.Parent() {
 		return true // store happened in an inlined callee before returning the object
@@ -1767,8 +1778,48 @@ func (f *Frame) orderedLoad(o *Obj, path string, at ssa.Instruction) (AV, bool) 
 	if len(cur) == 0 {
 		return nil, false
 	}
+	// the governing store of one path: the latest store certainly executed on it, every later
+	// one being impossible on it; no store at all: the zero value the allocation starts with
+	pickFor := func(cj Conj) (AV, bool) {
+		for _, c := range cs {
+			hit := f.executedBefore(o, c.rec, at)
+			for _, d := range c.rec.state {
+				if !c.rec.approx && cj.entailsAll(d) {
+					hit = true
+					break
+				}
+			}
+			if hit {
+				if len(c.path) > len(path) {
+					return nil, false
+				}
+				v := c.rec.val
+				if c.path != path {
+					rest := strings.TrimPrefix(path[len(c.path):], ".")
+					for _, seg := range strings.Split(rest, ".") {
+						var n int
+						if _, err := fmt.Sscanf(seg, "%d", &n); err != nil {
+							return nil, false
+						}
+						v = f.an.u.fieldOf(v, n)
+					}
+				}
+				return v, true
+			}
+			if consistent(cj, c.rec.state) {
+				return nil, false
+			}
+		}
+		if o.alloc == nil || o.symbolic || o.escaped {
+			return nil, false
+		}
+		if ld, ok := at.(*ssa.UnOp); ok {
+			return zeroValue(ld.Type()), true
+		}
+		return nil, false
+	}
 	for _, c := range cs {
-		definite := true
+		definite := !c.rec.approx
 		for _, cj := range cur {
 			hit := false
 			for _, d := range c.rec.state {
@@ -1782,6 +1833,7 @@ func (f *Frame) orderedLoad(o *Obj, path string, at ssa.Instruction) (AV, bool) 
 				break
 			}
 		}
+		definite = definite || f.executedBefore(o, c.rec, at)
 		if definite {
 			if len(c.path) > len(path) {
 				return nil, false // a later partial overwrite below the loaded path
@@ -1802,11 +1854,38 @@ func (f *Frame) orderedLoad(o *Obj, path string, at ssa.Instruction) (AV, bool) 
 		// not definitely executed: it must be impossible on this path, otherwise ambiguous
 		for _, cj := range cur {
 			if consistent(cj, c.rec.state) {
-				return nil, false
+				return f.disjunctLoad(o, path, at, func(cj Conj) (AV, bool) { return pickFor(cj) })
 			}
 		}
 	}
-	return nil, false
+	return f.disjunctLoad(o, path, at, func(cj Conj) (AV, bool) { return pickFor(cj) })
+}
+
+// disjunctLoad resolves a load whose value differs between the paths of the current state
+// (a field of a local struct assigned under a condition: `x.f = a; if c { x.f = b }`): each
+// disjunct picks its own governing store, and the load yields a fresh merged value that the
+// current state ties to the picked value disjunct by disjunct — exactly what a phi does for a
+// register. Only during execution of the loading instruction (the refinement is of f.cur).
+func (f *Frame) disjunctLoad(o *Obj, path string, at ssa.Instruction, pick func(Conj) (AV, bool)) (AV, bool) {
+	ld, isLoad := at.(*ssa.UnOp)
+	if !isLoad || at != f.curInstr || len(f.cur) == 0 || len(f.cur) > 64 {
+		return nil, false
+	}
+	vals := make([]AV, len(f.cur))
+	for i, cj := range f.cur {
+		v, ok := pick(cj.with(f.an.global...))
+		if !ok {
+			return nil, false
+		}
+		vals[i] = v
+	}
+	m := f.mergedValue(f.key+fmt.Sprintf("ld:%s%s@%s", o.key, path, valueName(at)), ld.Type(), vals)
+	var out DNF
+	for i, cj := range f.cur {
+		out = append(out, f.bindMerged(m, vals[i], DNF{cj})...)
+	}
+	f.cur = out
+	return m, true
 }
 
 // canonAff rewrites an index expression so that the name of an input-byte symbol does not depend
@@ -1917,7 +1996,7 @@ func (f *Frame) mayLoad(o *Obj, path string, at ssa.Instruction) (vals []AV, ok 
 			continue
 		}
 		vals = append(vals, rc.val)
-		definite := true
+		definite := !rc.approx
 		for _, cj := range cur {
 			hit := false
 			for _, d := range rc.state {
@@ -1931,7 +2010,7 @@ func (f *Frame) mayLoad(o *Obj, path string, at ssa.Instruction) (vals []AV, ok 
 				break
 			}
 		}
-		if definite {
+		if definite || f.executedBefore(o, rc, at) {
 			return vals, true // earlier stores are overwritten on every path
 		}
 	}
@@ -1953,4 +2032,148 @@ func (f *Frame) arrayIndexOblig(t types.Type, index ssa.Value, pos token.Pos, na
 	i := f.use(idx, "index")
 	f.oblig("index", pos, fmt.Sprintf("index %s[%s] with array length %d", name, i.String(), arr.Len()),
 		Conj{atomGE(i, affConst(0)), atomLT(i, affConst(arr.Len()))}, nil)
+}
+
+// callOf returns the call instruction of the parent frame whose inlined evaluation is f (nil for
+// a top frame or a frame superseded by a later pass over the same call).
+func (f *Frame) callOf() ssa.CallInstruction {
+	if f.parent == nil {
+		return nil
+	}
+	for ci, ch := range f.parent.child {
+		if ch == f {
+			return ci
+		}
+	}
+	return nil
+}
+
+func instrBefore(a, b ssa.Instruction) bool {
+	if a == nil || b == nil || a == b || a.Parent() != b.Parent() || a.Block() == nil || b.Block() == nil {
+		return false
+	}
+	if a.Block() == b.Block() {
+		for _, in := range a.Block().Instrs {
+			if in == a {
+				return true
+			}
+			if in == b {
+				return false
+			}
+		}
+		return false
+	}
+	return a.Block().Dominates(b.Block())
+}
+
+// beforeEveryExit: instruction a is executed on every path on which its function returns normally.
+func beforeEveryExit(a ssa.Instruction) bool {
+	fn := a.Parent()
+	if fn == nil || fn.Recover != nil || a.Block() == nil {
+		return false
+	}
+	for _, b := range fn.Blocks {
+		if len(b.Instrs) == 0 {
+			continue
+		}
+		if _, isRet := b.Instrs[len(b.Instrs)-1].(*ssa.Return); isRet {
+			if b != a.Block() && !a.Block().Dominates(b) {
+				return false
+			}
+		}
+	}
+	return true
+}
+
+// executedBefore decides from the shape of the program alone (dominance, through the chain of
+// inlined frames) that the recorded store has been executed whenever control reaches
+// instruction `at` of frame f. Unlike the comparison of path states it does not depend on how
+// precisely those states were kept.
+func (f *Frame) executedBefore(o *Obj, rc storeRec, at ssa.Instruction) bool {
+	if at == nil || rc.frame == nil || rc.instr == nil {
+		return false
+	}
+	type posn struct {
+		fr *Frame
+		in ssa.Instruction
+	}
+	var chain []posn
+	for fr, in := f, at; ; {
+		chain = append(chain, posn{fr, in})
+		if fr.parent == nil {
+			break
+		}
+		ci := fr.callOf()
+		if ci == nil {
+			return false
+		}
+		fr, in = fr.parent, ci
+	}
+	fr, in := rc.frame, rc.instr
+	ownAlloc := false
+	for {
+		for _, lp := range chain {
+			if lp.fr == fr {
+				return ownAlloc || instrBefore(in, lp.in)
+			}
+		}
+		// a completed callee: the store must lie on every path by which the callee hands the
+		// object on — every normal exit, or, for an object the callee itself allocates, every
+		// path from the allocation to a normal exit (the object does not exist on the others)
+		if fr.parent == nil {
+			return false
+		}
+		if !ownAlloc {
+			if o != nil && o.alloc != nil && fr.objs[o.alloc] == o && o.alloc.Parent() == in.Parent() {
+				if !passesBetween(o.alloc, in) {
+					return false
+				}
+				ownAlloc = true
+			} else if !beforeEveryExit(in) {
+				return false
+			}
+		}
+		ci := fr.callOf()
+		if ci == nil {
+			return false
+		}
+		fr, in = fr.parent, ci
+	}
+}
+
+// passesBetween: every path from instruction a to a normal exit of their function executes s.
+func passesBetween(a, s ssa.Instruction) bool {
+	if a.Block() == nil || s.Block() == nil || a.Parent() != s.Parent() || a.Parent().Recover != nil {
+		return false
+	}
+	if a.Block() == s.Block() {
+		for _, in := range a.Block().Instrs {
+			if in == a {
+				return true
+			}
+			if in == s {
+				return false
+			}
+		}
+		return false
+	}
+	seen := map[*ssa.BasicBlock]bool{a.Block(): true}
+	work := []*ssa.BasicBlock{a.Block()}
+	for len(work) > 0 {
+		b := work[len(work)-1]
+		work = work[:len(work)-1]
+		if n := len(b.Instrs); n > 0 {
+			if _, isRet := b.Instrs[n-1].(*ssa.Return); isRet {
+				return false
+			}
+		}
+		for _, sc := range b.Succs {
+			if sc == s.Block() || seen[sc] {
+				continue
+			}
+			seen[sc] = true
+			work = append(work, sc)
+		}
+	}
+	return true
 }
